@@ -186,19 +186,37 @@ def shared_state_snapshot():
     snap = {}
     for name, g in GENERATORS.items():
         snap["style:" + name] = copy.deepcopy({getattr(k, "__name__", str(k)): v for k, v in g.default_types_style.items()})
-    # every class-level container of every generator class (by reflection: also ones a later change introduces)
-    import json_to_models.models.base as _mb
+    # every class-level container of every class of the package (by reflection: also ones a later change introduces)
+    import importlib
+    import pkgutil
+    import inspect
+    import json_to_models as _pkg
+    mods = [_pkg]
+    for mi in pkgutil.walk_packages(_pkg.__path__, _pkg.__name__ + "."):
+        try:
+            mods.append(importlib.import_module(mi.name))
+        except Exception:
+            pass
     seen_cls = set()
-    for g in GENERATORS.values():
-        for c in g.__mro__:
-            if c.__module__.startswith("json_to_models") and c not in seen_cls:
-                seen_cls.add(c)
-                for k, v in vars(c).items():
-                    if isinstance(v, (list, dict, set, tuple)) and not k.startswith("__") and k != "default_types_style":
-                        try:
-                            snap[f"class:{c.__name__}.{k}"] = repr(copy.deepcopy(v))
-                        except Exception:
-                            snap[f"class:{c.__name__}.{k}"] = repr(v)
+
+    def snap_class(c, prefix):
+        if c in seen_cls:
+            return
+        seen_cls.add(c)
+        for k, v in list(vars(c).items()):
+            if k.startswith("__") or k in ("default_types_style", "_abc_impl"):
+                continue
+            if isinstance(v, (list, dict, set)):
+                try:
+                    snap[f"class:{prefix}{c.__name__}.{k}"] = repr(sorted(map(repr, v))) if isinstance(v, set) else repr(v)
+                except Exception:
+                    snap[f"class:{prefix}{c.__name__}.{k}"] = "<unrepresentable>"
+            elif inspect.isclass(v) and getattr(v, "__module__", "").startswith("json_to_models"):
+                snap_class(v, prefix + c.__name__ + ".")
+    for m in mods:
+        for k, v in list(vars(m).items()):
+            if inspect.isclass(v) and getattr(v, "__module__", "") == m.__name__:
+                snap_class(v, "")
     snap["registry.types"] = [t.__name__ for t in default_registry.types]
     snap["registry.replaces"] = sorted((a.__name__, b.__name__) for a, b in default_registry.replaces)
     snap["context"] = repr(getattr(AbsoluteModelRef.Context.data, "context", None))
